@@ -598,42 +598,42 @@ def _gen(ctx: Ctx):
     # ---- translation
     shapes = list(SHAPES_ORACLE)
     r.shuffle(shapes)
-    for i, sh in enumerate(shapes[:ctx.budget(10, len(shapes))] * ctx.budget(1, 3)):
+    for i, sh in enumerate(shapes[:ctx.budget(14, len(shapes))] * ctx.budget(1, 8)):
         out.append({"kind": "translate", "shape": list(sh), "shifts": shifts(3), "seed": seed(),
                     "int_shift": [r.randint(-8, 8), r.randint(-8, 8)], "backend": "torch" if i % 3 else "numpy", "coq": False})
     cs = list(SHAPES_COQ)
     r.shuffle(cs)
-    for i, sh in enumerate(cs[:ctx.budget(5, len(cs))]):
+    for i, sh in enumerate(cs[:ctx.budget(8, len(cs))] * ctx.budget(1, 4)):
         out.append({"kind": "translate", "shape": list(sh), "shifts": shifts(2), "seed": seed(),
                     "int_shift": [r.randint(-5, 5), r.randint(-5, 5)], "backend": "numpy" if i % 3 == 0 else "torch", "coq": True})
     # ---- propagation
     ts = list(SHAPES_TOY)
     r.shuffle(ts)
-    for i, sh in enumerate(ts[:ctx.budget(7, len(ts))] * ctx.budget(1, 3)):
+    for i, sh in enumerate(ts[:ctx.budget(12, len(ts))] * ctx.budget(1, 10)):
         tilt = [0.0, 0.0] if i % 3 == 0 else [round(r.uniform(-8, 8), 2), round(r.uniform(-8, 8), 2) if i % 3 == 2 else 0.0]
         out.append({"kind": "propagate", "shape": list(sh), "seed": seed(),
                     "thick": [round(r.uniform(0.5, 20.0), 2), round(r.uniform(0.5, 20.0), 2)],
                     "sampling": [round(r.uniform(0.2, 0.6), 3), round(r.uniform(0.2, 0.6), 3)],
                     "energy": r.choice([60e3, 80e3, 200e3, 300e3]), "tilt": tilt,
-                    "coq": sh[0] * sh[1] <= 80 and i < ctx.budget(4, 12)})
+                    "coq": sh[0] * sh[1] <= 80 and i < ctx.budget(6, 40)})
     # ---- gather / scatter
     r.shuffle(ts)
-    for i, sh in enumerate(ts[:ctx.budget(8, len(ts))] * ctx.budget(1, 3)):
+    for i, sh in enumerate(ts[:ctx.budget(12, len(ts))] * ctx.budget(1, 10)):
         B = r.randint(1, 4)
         out.append({"kind": "adjoint", "roi": list(sh), "slices": r.randint(1, 3), "seed": seed(),
                     "pad": [r.randint(0, 2), r.randint(0, 3)], "index_mode": "patch" if i % 3 != 2 else "random",
                     "positions": [[round(r.uniform(-12, 24), 2), round(r.uniform(-12, 24), 2)] for _ in range(B)],
-                    "coq": sh[0] * sh[1] <= 30 and i < ctx.budget(6, 18)})
+                    "coq": sh[0] * sh[1] <= 30 and i < ctx.budget(12, 60)})
     # ---- pure phase: every (slices, modes) combination
     combos = [(s, m) for s in (1, 2, 3, 4) for m in (1, 2, 3)]
     r.shuffle(combos)
     r.shuffle(ts)
-    for i, (s, m) in enumerate(combos * ctx.budget(1, 3)):
+    for i, (s, m) in enumerate(combos * ctx.budget(2, 12)):
         sh = ts[i % len(ts)]
         small = sh[0] * sh[1] <= 42
         out.append({"kind": "pure_phase", "roi": list(sh), "slices": s, "modes": m, "batch": r.randint(1, 3), "seed": seed(),
                     "thick": [round(r.uniform(0.5, 15.0), 2) for _ in range(s - 1)], "zero_mode": i % 5 == 4,
-                    "coq": small and i < ctx.budget(8, 24)})
+                    "coq": small and i < ctx.budget(10, 60)})
     for sh, s, m in [((5, 6), 4, 3), ((4, 4), 1, 1), ((3, 7), 3, 2)][:ctx.budget(2, 3)]:
         out.append({"kind": "pure_phase", "roi": list(sh), "slices": s, "modes": m, "batch": 1, "seed": seed(),
                     "thick": [round(r.uniform(0.5, 15.0), 2) for _ in range(s - 1)], "zero_mode": False, "coq": True})
@@ -642,14 +642,14 @@ def _gen(ctx: Ctx):
     kinds = [("random", "random"), ("random", "zero-pattern"), ("one-zero-pattern", "random"), ("delta", "random"),
              ("random", "zero-mode")]
     n = 0
-    for rep in range(ctx.budget(1, 3)):
-        for i, sh in enumerate(ts[:ctx.budget(9, len(ts))]):
+    for rep in range(ctx.budget(1, 10)):
+        for i, sh in enumerate(ts[:ctx.budget(12, len(ts))]):
             for m in (1, 2, 3) if (i % 3 == 0) else ((1, 2) if i % 3 == 1 else (1, 3)):
                 ak, pk = kinds[n % len(kinds)]
                 n += 1
                 out.append({"kind": "fproj", "roi": list(sh), "modes": m, "batch": r.randint(2, 3), "seed": seed(),
                             "zero_frac": r.choice([0.0, 0.1, 0.3]), "amp_kind": ak, "psi_kind": pk,
-                            "coq": pk == "random" and sh[0] * sh[1] <= (80 if m == 1 else 48) and rep == 0})
+                            "coq": pk == "random" and sh[0] * sh[1] <= (80 if m == 1 else 48) and rep < 3})
     # ---- the library's own forward pass
     for sh, s, m in [((6, 8), 2, 2), ((5, 6), 3, 1), ((7, 5), 1, 3), ((8, 10), 4, 2)][:ctx.budget(2, 4)]:
         out.append({"kind": "pipeline", "roi": list(sh), "slices": s, "modes": m, "seed": seed()})
@@ -711,7 +711,15 @@ def run(ctx: Ctx):
     ctx.proofs_or_violation()
 
     E = Env()
-    cases = _gen(ctx)
+    cases = []
+    from ..common import VERIF
+    for f in sorted((VERIF / "corpus" / "C16").glob("*.json")):          # regression cases always run first
+        try:
+            cases.append(dict(json.loads(f.read_text())["case"]))
+            ctx.dist("corpus")
+        except Exception as e:  # noqa
+            ctx.log("unreadable corpus file %s: %r" % (f, e))
+    cases += _gen(ctx)
     ctx.log("%d cases" % len(cases))
     results = []
     for case in cases:
